@@ -26,7 +26,10 @@ def standin_schedule(tier, seed):
     kinds = MODEL_KINDS[:2] if tier == "quick" else MODEL_KINDS
     grid = [dict(n_iter=9, n_burn_in_iter=4, power=0.8), dict(n_iter=12, n_burn_in_iter=None, n_burn_in_iter_frac=0.5, power=0.65),
             dict(n_iter=10, n_burn_in_iter=0, power=1.0), dict(n_iter=11, n_burn_in_iter=None, n_burn_in_iter_frac=0.77, power=0.51),
-            dict(n_iter=8, n_burn_in_iter=8, power=0.8)]
+            dict(n_iter=8, n_burn_in_iter=8, power=0.8),
+            # annealing configured for longer than the memory-less phase: the phase boundary must not move
+            dict(n_iter=12, n_burn_in_iter=None, n_burn_in_iter_frac=0.25, power=0.8,
+                 annealing=dict(do_annealing=True, n_iter_frac=0.75, initial_temperature=5.0, n_plateau=3))]
     if tier != "quick":
         grid += [dict(n_iter=14, n_burn_in_iter=None, n_burn_in_iter_frac=0.2, power=0.9), dict(n_iter=9, n_burn_in_iter=7, power=0.6)]
     cls = ms.TensorMcmcSaemAlgorithm
